@@ -301,6 +301,7 @@ var repaired = []string{
 	"ws-or-brace-in-backquote", "special-in-backquote", "hash-in-word", "dangling-open-brace-at-eof",
 	"empty-input", "cr-inside-word",
 	"special-right-after-line-continuation", "line-continuation-without-token-before", "glued-after-quote",
+	"blank-line-after-line-continuation",
 }
 
 // scanWord consumes an unquoted word starting at i (up to the next white space) and records
@@ -437,7 +438,7 @@ func equalRunes(a, b []rune) bool {
 }
 
 // inProvedFragment re-implements the Lean predicate `inW` (lean/CaddyModel/C17/Fragment.lean):
-// plain words, non-CR white space, `… {⏎ … ⏎}` blocks, simple double-quoted strings, comments without backslash / trailing blank (not right
+// plain words (also with placeholder groups `{x}`, `a{x}b`), non-CR white space, `… {⏎ … ⏎}` blocks, simple double-quoted strings, comments without backslash / trailing blank (not right
 // after a brace on the same line, not right before `{`). On this
 // fragment token preservation and idempotence are THEOREMS (Props.fmt_preserves_tokens_partial /
 // fmt_idempotent_partial); the model prints the same bit (field W:), so the two definitions are
@@ -522,10 +523,20 @@ func inProvedFragment(x string) bool {
 			case len(w) == 1 && w[0] == '}':
 				kind = kClose
 			default:
+				// plain characters and placeholder groups `{…}` (Fragment.pwOK)
+				inB := false
 				for _, c := range w {
-					if !plain(c) {
+					switch {
+					case !inB && c == '{':
+						inB = true
+					case inB && c == '}':
+						inB = false
+					case !plain(c):
 						return false
 					}
+				}
+				if inB {
+					return false
 				}
 			}
 		}
